@@ -917,6 +917,9 @@ func (w *world) retainedKnowledge() (map[int][]rkEvent, map[string]bool) {
 	local := map[int]map[string][]kEntry{}
 	seen := map[string]bool{}
 	for _, r := range w.recv {
+		if up, back := w.restartAt[r.Node]; back && r.AtMs < up {
+			continue // what the node's previous process knew died with it
+		}
 		if r.Src != "emit" {
 			for _, e := range r.Entries {
 				if strings.HasPrefix(e.Key, "R|") {
@@ -948,6 +951,9 @@ func (w *world) retainedKnowledge() (map[int][]rkEvent, map[string]bool) {
 		}
 		cl := w.clients[s.C]
 		if cl == nil {
+			continue
+		}
+		if up, back := w.restartAt[cl.node]; back && w.stepAt[si] < up {
 			continue
 		}
 		key := "R|" + cl.mount + "/" + s.T
@@ -1046,6 +1052,48 @@ func judgeRetained(w *world) {
 				}
 			}
 		}
+		if up, back := w.restartAt[cl.node]; back && w.stepAt[si] > up && len(w.settles) > 0 && w.settles[0].AtMs < up {
+			// the node's process has been started again: with nothing written since the settle that
+			// preceded its death, what it replays is what every node listed at that settle - the
+			// join exchange alone must have brought all of it back
+			quietSince := true
+			firstSettle := len(w.c.Steps)
+			for sj, x := range w.c.Steps {
+				if x.K == "settle" && sj < firstSettle {
+					firstSettle = sj
+				}
+				if x.K == "pub" && x.F && sj > firstSettle && sj < si && w.txStamp(sj, x.C, tPUBLISH) >= 0 {
+					quietSince = false
+				}
+			}
+			if quietSince {
+				w.o.probe("replay_after_restart_judged_against_settled_reference")
+				ref := map[string]int{}
+				for _, one := range s.L {
+					for _, x := range w.settles[0].Listings[0] {
+						fl := strings.SplitN(x, "|", 4)
+						if fl[0] != "R" || len(fl) < 3 {
+							continue
+						}
+						topic := strings.TrimPrefix(fl[1], cl.mount+"/")
+						if topic != fl[1] && refMatch(one, topic) && fl[2] != "" {
+							ref[topic+"="+tagOf([]byte(fl[2]))]++
+						}
+					}
+				}
+				var lost []string
+				for k, n := range ref {
+					if got[k] < n {
+						lost = append(lost, k)
+					}
+				}
+				sort.Strings(lost)
+				if len(lost) > 0 {
+					w.o.violate("C07", "retained-lost-by-restart", si, endMs, map[string]string{"wildcard": fmt.Sprint(strings.ContainsAny(f, "+#"))},
+						"node %d's process was started again at %dms and rejoined; client %d subscribed to %q there at %dms, nothing had been written since the settle before the restart, at which every node listed retained %v; %v was not replayed (got %v)", cl.node, up, s.C, f, w.stepAt[si], keysOfCount(ref), lost, keysOfCount(got))
+				}
+			}
+		}
 		judged++
 		if strings.ContainsAny(f, "+#") {
 			wild++
@@ -1111,6 +1159,94 @@ func keysOfCount(m map[string]int) []string {
 	}
 	sort.Strings(ks)
 	return ks
+}
+
+// C07 variant "restart": a node's process dies and is started again (same node id, nothing but the
+// message log survives); what it replays to new subscribers afterwards is what its peers have
+// handed it since: the join snapshot, later gossip and anti-entropy.
+func genC07Restart(r *Rand, tier, profile string) *Case {
+	c := &Case{Profile: "retained-restart", Knobs: map[string]int64{}}
+	nodes := r.PickInt([]int{2, 2, 3})
+	c.Knobs["nodes"] = int64(nodes)
+	gossipKnobs(r, c)
+	topics := append([]string(nil), c07Topics...)
+	filters := []string{"#", "a/#", "a/+", "+", "+/b", "a/b/#", "a", "a/b", "b", "+/#"}
+	rn := 1 + r.Intn(nodes-1)
+	var ts []tstep
+	t := int64(1)
+	// writers: two on nodes that stay up, one on the node that will restart
+	ts = append(ts, tstep{t, Step{K: "connect", C: 0, N: 0, S: "w0", U: "u", T: "p", I: 3000}})
+	ts = append(ts, tstep{t + 5, Step{K: "connect", C: 1, N: (rn + 1) % nodes, S: "w1", U: "u", T: "p", I: 3000}})
+	ts = append(ts, tstep{t + 9, Step{K: "connect", C: 2, N: rn, S: "w2", U: "u", T: "p", I: 3000}})
+	t += 20
+	pid, tag := 1, 0
+	write := func(writers []int, n int) {
+		for ; n > 0; n-- {
+			t += int64(r.Range(2, 60))
+			cl := writers[r.Intn(len(writers))]
+			topic := r.Pick(topics)
+			if r.Bool(0.25) {
+				ts = append(ts, tstep{t, Step{K: "pub", C: cl, T: topic, S: "", Q: r.Intn(2), F: true, I: int64(pid)}})
+			} else {
+				tag++
+				ts = append(ts, tstep{t, Step{K: "pub", C: cl, T: topic, S: fmt.Sprintf("r%d", tag), Q: r.Intn(2), F: true, I: int64(pid)}})
+			}
+			pid++
+		}
+	}
+	write([]int{0, 1, 2}, r.Range(2, 6))
+	t += 30
+	ts = append(ts, tstep{t, Step{K: "settle"}}) // what was written so far is known everywhere
+	t += settleDur + int64(r.Range(20, 400))
+	down := int64(r.Range(50, 1500))
+	quiet := r.Bool(0.6)
+	if !quiet {
+		c.Knobs["leave_base_ms"] = int64(r.PickInt([]int{300, 500, 800}))
+		c.Knobs["leave_spread_ms"] = 300
+		down = c.Knobs["leave_base_ms"] + 300 + int64(r.Range(20, 900))
+	}
+	ts = append(ts, tstep{t, Step{K: "restartnode", N: rn, I: down, G: quiet}})
+	if r.Bool(0.5) {
+		// written while the node is away
+		t0 := t
+		write([]int{0, 1}, r.Range(1, 3))
+		if t > t0+down-20 {
+			t = t0 + down - 20
+		}
+		t = t0 + down
+	} else {
+		t += down
+	}
+	// new subscribers on the restarted node, right after its return and later
+	sub := func(c int) {
+		f := r.Pick(filters)
+		fs, qs := []string{f}, []int{r.Intn(3)}
+		for r.Bool(0.3) && len(fs) < 3 {
+			fs, qs = append(fs, r.Pick(filters)), append(qs, r.Intn(3))
+		}
+		ts = append(ts, tstep{t, Step{K: "sub", C: c, L: fs, QL: qs, I: int64(pid)}})
+		pid++
+		t += 1400
+	}
+	t += int64(r.Range(30, 600))
+	ts = append(ts, tstep{t, Step{K: "connect", C: 10, N: rn, S: "s10", U: "u", T: "p", I: 3000}})
+	t += 10
+	sub(10)
+	write([]int{0, 1}, r.Range(0, 3))
+	t += int64(r.Range(1, 700))
+	sub(10)
+	t += 30
+	ts = append(ts, tstep{t, Step{K: "settle"}})
+	t += settleDur + 20
+	ts = append(ts, tstep{t, Step{K: "connect", C: 11, N: rn, S: "s11", U: "u", T: "p", I: 3000}})
+	t += 10
+	sub(11)
+	ts = append(ts, tstep{t, Step{K: "connect", C: 12, N: 0, S: "s12", U: "u", T: "p", I: 3000}})
+	t += 10
+	sub(12)
+	ts = append(ts, tstep{t, Step{K: "sleep", I: 1500}})
+	c.Steps = mergeTimelines(ts)
+	return c
 }
 
 func runC07(t *testing.T, c *Case) *Outcome {
@@ -1338,6 +1474,10 @@ func init() {
 		Rule: "a case = 1-3 nodes, 2-4 clients, rounds of retained publishes (non-empty / empty payload) and plain publishes over topics with shared prefixes, a settle, then subscriptions with exact and wildcard filters on any node, each followed by a 1.3 s observation window; the replayed set is compared with a reference map; non-trivial when >=1 subscribe judged with a non-empty reference; distinct by hash of the scenario",
 		Real: e1Real, Stub: e1Stub,
 		Assume: []string{"a SUBSCRIBE with several filters replays once per (filter, matching topic)", "retained writes to one topic are ordered by simulated time (the CRDT clock is one strictly increasing stamp); concurrent cross-node writes are not generated"}})
+	register(&Check{ID: "C07", Variant: "restart", Level: "exploration", Build: "maporder", Gen: genC07Restart, Run: runC07, QuickS: 12, ThoroughS: 200,
+		Rule: "variant with a process restart: 2-3 nodes, retained sets and clears from writers on every node, a settle, then one node's process dies and is started again from its data directory (same node id, replicated state gone) 50-1500 ms later, unnoticed or right after a fast failure detection, retained writes continuing elsewhere meanwhile; new subscribers on the restarted node right after its return (join snapshot only), while gossip is in flight, and after a settle; what they are replayed is the LWW fold of what the node has been handed since its return; non-trivial when >=1 subscription judged",
+		Real: e1Real, Stub: e1Stub,
+		Assume: []string{"retained state is not durable: what the restarted node's previous process knew is not expected to survive except through its peers"}})
 	register(&Check{ID: "C07", Variant: "race", Level: "exploration", Build: "lockstep", Gen: genC07Race, Run: runC07Race, QuickS: 20, ThoroughS: 300,
 		Rule: "concurrent variant: one node, an optional earlier retained value, then one or two retained publishes (or clears) and a SUBSCRIBE with 1-3 filters handed to the broker in the same driver turn, executed on the statement-instrumented build with seeded preemption (the running goroutine yields at PRNG-chosen statements, one P) and the race detector on; the subscriber's last message on the topic must be the broker's own final retained value (replay or live copy), or nothing / the clearing publish if the topic ended up cleared",
 		Real: e1Real, Stub: append([]string{"goroutine scheduling inside the broker: Go runtime with one P plus PRNG-chosen runtime.Gosched() at instrumented statements"}, e1Stub...),
